@@ -4,6 +4,7 @@ package gx
 
 import (
 	"fmt"
+	"os"
 	"hash/fnv"
 	"runtime"
 	"sort"
@@ -22,13 +23,13 @@ type Variant struct {
 
 // Actor is something the controller can let happen at a decision point.
 type Actor struct {
-	Label    string // stable across runs
-	Rank     int    // default priority class (lower first)
+	Label string // stable across runs
+	Rank  int    // default priority class (lower first)
 	// Urgent actors pre-empt everything else: while one is enabled only urgent actors are offered.
 	// Used to make a window atomic in which a sarama goroutine that owns a multi-way select is
 	// blocked mid-body (two senders queueing on that select would be resolved by Go's random
 	// select order, which the controller cannot own).
-	Urgent bool
+	Urgent   bool
 	Variants []Variant
 }
 
@@ -82,7 +83,7 @@ type Ctl struct {
 
 func newCtl(prefix []Choice) *Ctl {
 	return &Ctl{prefix: prefix, postponed: map[string]bool{}, goInc: map[string]map[uint64]int{}, SiteHits: map[string]int{},
-		MaxSteps: 3000, Horizon: 10 * time.Minute}
+		MaxSteps: envInt("VERIF_MAXSTEPS", 3000), Horizon: 10 * time.Minute}
 }
 
 func goid() uint64 {
@@ -228,7 +229,7 @@ func (c *Ctl) Loop(done func() bool) {
 			if done() {
 				return
 			}
-			if idle < 3 {
+			if idle < 3 { // at most three horizon sleeps per execution (not consecutive: never reset)
 				// nothing can happen now: let fake time run so that every pending deadline,
 				// back-off or ticker expires (costs no wall-clock time)
 				idle++
@@ -238,7 +239,6 @@ func (c *Ctl) Loop(done func() bool) {
 			c.Stuck = true
 			return
 		}
-		idle = 0
 		if steps >= c.MaxSteps {
 			c.StepLimit = true
 			return
@@ -318,6 +318,33 @@ func (c *Ctl) Deviations() int {
 func (c *Ctl) Trailing(prefix string) int {
 	n := 0
 	for i := len(c.Choices) - 1; i >= 0 && strings.HasPrefix(c.Choices[i].L, prefix); i-- {
+		n++
+	}
+	return n
+}
+
+func envInt(k string, def int) int {
+	if v := os.Getenv(k); v != "" {
+		if n, err := strconv.Atoi(v); err == nil {
+			return n
+		}
+	}
+	return def
+}
+
+// TrailingAny counts the most recent consecutive choices whose label contains any of the given substrings.
+func (c *Ctl) TrailingAny(subs ...string) int {
+	n := 0
+	for i := len(c.Choices) - 1; i >= 0; i-- {
+		hit := false
+		for _, s := range subs {
+			if strings.Contains(c.Choices[i].L, s) {
+				hit = true
+			}
+		}
+		if !hit {
+			break
+		}
 		n++
 	}
 	return n
